@@ -2063,7 +2063,145 @@ Proof.
   induction p as [|k r IH]; intros q n; cbn [app fm_at]; [reflexivity|].
   destruct (fm_has_children n) eqn:E; [apply IH|].
   (* a node without children is carried unchanged to every descendant *)
-  clear IH. revert r. induction q as [|k' q' IHq]; intros r.
-  - destruct r; cbn [fm_at]; [reflexivity | now rewrite E].
-  - cbn [fm_at]. rewrite E. destruct r; cbn [fm_at]; rewrite ?E; reflexivity.
+  destruct q as [|k' q']; cbn [fm_at]; [reflexivity | now rewrite E].
+Qed.
+
+(* ------------------------------------------------------------------------------------------------ *)
+(* cfg/matchrule: what Match computes                                                                 *)
+(* ------------------------------------------------------------------------------------------------ *)
+Lemma to_lower_len b : len (to_lower b) = len b.
+Proof. unfold to_lower, len. now rewrite map_length. Qed.
+
+Lemma fold_min_le : forall (vs : list bytes) a v, In v vs -> fold_left (fun a v => Z.min a (len v)) vs a <= len v.
+Proof.
+  assert (Hmono : forall (vs : list bytes) a, fold_left (fun a v => Z.min a (len v)) vs a <= a).
+  { induction vs as [|x r IH]; intros a; cbn [fold_left]; [lia|]. specialize (IH (Z.min a (len x))). lia. }
+  induction vs as [|x r IH]; intros a v Hin; [destruct Hin|]. destruct Hin as [<- | Hin]; cbn [fold_left].
+  - specialize (Hmono r (Z.min a (len x))). lia.
+  - now apply IH.
+Qed.
+
+Lemma fold_max_ge_in : forall (vs : list bytes) a v, In v vs -> len v <= fold_left (fun a v => Z.max a (len v)) vs a.
+Proof.
+  induction vs as [|x r IH]; intros a v Hin; [destruct Hin|]. destruct Hin as [<- | Hin]; cbn [fold_left].
+  - pose proof (fold_max_ge r (Z.max a (len x))). lia.
+  - now apply IH.
+Qed.
+
+Lemma firstn_firstn_le {A} (l : list A) a b : (a <= b)%nat -> firstn a (firstn b l) = firstn a l.
+Proof. intros H. rewrite firstn_firstn. f_equal. lia. Qed.
+
+Lemma slice_to_ok {A} (l : list A) n : 0 <= n <= len l -> slice_to l n = Ok (firstn (Z.to_nat n) l).
+Proof. intros H. unfold slice_to. rewrite slice_ok by lia. cbn [Z.to_nat skipn]. now rewrite Z.sub_0_r. Qed.
+
+Lemma slice_from_ok {A} (l : list A) n : 0 <= n <= len l -> slice_from l n = Ok (skipn (Z.to_nat n) l).
+Proof.
+  intros H. unfold slice_from. rewrite slice_ok by lia. f_equal.
+  apply firstn_all2. rewrite skipn_length. unfold len in *. lia.
+Qed.
+
+Lemma affix_loop_prefix cut data : forall vs,
+  (forall v, In v vs -> len v <= len cut -> firstn (length v) cut = firstn (length v) data) ->
+  (forall v, In v vs -> (len v <=? len cut) = (len v <=? len data)) ->
+  affix_loop RPrefix cut vs = Ok (existsb (affix_test RPrefix data) vs).
+Proof.
+  induction vs as [|v r IH]; intros H1 H2; cbn [affix_loop existsb]; [reflexivity|].
+  pose proof (len_nonneg v). unfold affix_test at 1. rewrite <- (H2 v) by now left.
+  destruct (len cut <? len v) eqn:E.
+  - replace (len v <=? len cut) with false by lia. cbn [andb orb]. apply IH; intros; [apply H1 | apply H2]; auto; now right.
+  - replace (len v <=? len cut) with true by lia. cbn [andb].
+    rewrite slice_to_ok by lia. cbn [bind]. replace (Z.to_nat (len v)) with (length v) by (unfold len; lia).
+    rewrite (H1 v) by (first [now left | lia]).
+    destruct (bytes_eqb (firstn (length v) data) v); cbn [orb]; [reflexivity|].
+    apply IH; intros; [apply H1 | apply H2]; auto; now right.
+Qed.
+
+Lemma affix_loop_suffix cut data : forall vs,
+  (forall v, In v vs -> len v <= len cut -> skipn (length cut - length v) cut = skipn (length data - length v) data) ->
+  (forall v, In v vs -> (len v <=? len cut) = (len v <=? len data)) ->
+  affix_loop RSuffix cut vs = Ok (existsb (affix_test RSuffix data) vs).
+Proof.
+  induction vs as [|v r IH]; intros H1 H2; cbn [affix_loop existsb]; [reflexivity|].
+  pose proof (len_nonneg v). unfold affix_test at 1. rewrite <- (H2 v) by now left.
+  destruct (len cut <? len v) eqn:E.
+  - replace (len v <=? len cut) with false by lia. cbn [andb orb]. apply IH; intros; [apply H1 | apply H2]; auto; now right.
+  - replace (len v <=? len cut) with true by lia. cbn [andb].
+    rewrite slice_from_ok by lia. cbn [bind].
+    replace (Z.to_nat (len cut - len v)) with (length cut - length v)%nat by (unfold len in *; lia).
+    rewrite (H1 v) by (first [now left | lia]).
+    destruct (bytes_eqb (skipn (length data - length v) data) v); cbn [orb]; [reflexivity|].
+    apply IH; intros; [apply H1 | apply H2]; auto; now right.
+Qed.
+
+Lemma to_lower_firstn n b : to_lower (firstn n b) = firstn n (to_lower b).
+Proof. unfold to_lower. now rewrite firstn_map. Qed.
+Lemma to_lower_skipn n b : to_lower (skipn n b) = skipn n (to_lower b).
+Proof. unfold to_lower. now rewrite skipn_map. Qed.
+
+Lemma existsb_ext_in' {A} (f g : A -> bool) : forall l, (forall x, In x l -> f x = g x) -> existsb f l = existsb g l.
+Proof.
+  induction l as [|x r IH]; intros H; cbn [existsb]; [reflexivity|].
+  rewrite (H x) by now left. f_equal. apply IH. intros y Hy. apply H. now right.
+Qed.
+
+Theorem rule_match_spec r raw : r_values r <> [] -> rule_match (prepare r) raw = Ok (rule_spec r raw).
+Proof.
+  intros Hne. unfold rule_match, rule_spec.
+  set (vs := if r_ci r then map to_lower (r_values r) else r_values r).
+  set (data := if r_ci r then to_lower raw else raw).
+  assert (Hdl : len data = len raw) by (unfold data; destruct (r_ci r); [apply to_lower_len | reflexivity]).
+  assert (Hvs : vs <> []) by (unfold vs; destruct (r_ci r); [destruct (r_values r); [congruence | discriminate] | assumption]).
+  assert (Hmin : forall v, In v vs -> p_min (prepare r) <= len v) by (intros v Hv; cbn [prepare p_min]; now apply fold_min_le).
+  assert (Hmax : forall v, In v vs -> len v <= p_max (prepare r)) by (intros v Hv; cbn [prepare p_max]; now apply fold_max_ge_in).
+  assert (Hraw : rule_match_raw (prepare r) raw = Ok (existsb (affix_test (r_mode r) data) vs)).
+  { unfold rule_match_raw. pose proof (len_nonneg raw) as Hr0. pose proof (prepare_max_nonneg r) as Hm0.
+    destruct (len raw <? p_min (prepare r)) eqn:Emin.
+    - f_equal. symmetry. apply not_true_iff_false. intros Hex. apply existsb_exists in Hex as (v & Hv & Ht).
+      unfold affix_test in Ht. apply andb_prop in Ht as [Ht _]. specialize (Hmin v Hv). lia.
+    - change (p_mode (prepare r)) with (r_mode r). change (p_ci (prepare r)) with (r_ci r). change (p_values (prepare r)) with vs.
+      destruct (r_mode r) eqn:Emd.
+      + (* prefix *)
+        destruct (len raw <? p_max (prepare r)) eqn:Emax; cbn [bind].
+        * fold data. apply affix_loop_prefix; intros; reflexivity.
+        * rewrite slice_to_ok by lia. cbn [bind].
+          set (cut := if r_ci r then to_lower (firstn (Z.to_nat (p_max (prepare r))) raw) else firstn (Z.to_nat (p_max (prepare r))) raw).
+          assert (Hcut : cut = firstn (Z.to_nat (p_max (prepare r))) data).
+          { unfold cut, data. destruct (r_ci r); [apply to_lower_firstn | reflexivity]. }
+          assert (Hcl : len cut = p_max (prepare r)).
+          { rewrite Hcut. unfold len in *. rewrite firstn_length. lia. }
+          apply affix_loop_prefix.
+          -- intros v Hv Hlv. rewrite Hcut. apply firstn_firstn_le. unfold len in *. lia.
+          -- intros v Hv. specialize (Hmax v Hv). lia.
+      + (* contains *)
+        fold data. f_equal. apply existsb_ext_in'. intros v Hv. unfold affix_test.
+        f_equal. lia.
+      + (* suffix *)
+        destruct (len raw <? p_max (prepare r)) eqn:Emax; cbn [bind].
+        * fold data. apply affix_loop_suffix; intros; reflexivity.
+        * rewrite slice_from_ok by lia. cbn [bind].
+          set (n := Z.to_nat (len raw - p_max (prepare r))).
+          set (cut := if r_ci r then to_lower (skipn n raw) else skipn n raw).
+          assert (Hcut : cut = skipn n data).
+          { unfold cut, data. destruct (r_ci r); [apply to_lower_skipn | reflexivity]. }
+          assert (Hcl : len cut = p_max (prepare r)).
+          { rewrite Hcut. unfold len in *. rewrite skipn_length. unfold n. lia. }
+          apply affix_loop_suffix.
+          -- intros v Hv Hlv. rewrite Hcut. rewrite skipn_plus. f_equal.
+             unfold len in *. rewrite skipn_length. unfold n. lia.
+          -- intros v Hv. specialize (Hmax v Hv). lia. }
+  rewrite Hraw. cbn [bind]. change (p_invert (prepare r)) with (r_invert r).
+  f_equal. destruct (r_invert r); cbn [xorb]; [now destruct (existsb _ vs) | now destruct (existsb _ vs)].
+Qed.
+
+(* one mask in force on one non-empty value: processMask is one maskValue on the regexp's answer *)
+Lemma process_mask_single k fl oracle fm s idxs :
+  s <> [] -> applicable fl k 0 fm = true -> check_match_rules (k_rules k) s = Ok true ->
+  k_apply k = true -> oracle 0%nat s = Ok idxs -> re_wf (len s) (k_nsub k) idxs ->
+  process_mask [k] fl oracle fm s =
+    (mv <- mask_value s idxs (k_groups k) (k_mode k) ;;
+     Ok (match mv with Some out => (out, true, [0%nat]) | None => (s, false, []) end)).
+Proof.
+  intros Hs Ha Hr Hk Ho Hwf. unfold process_mask. destruct s as [|c s']; [congruence|].
+  cbn [pm_loop]. rewrite Ha, Hr, Hk, Ho. cbn [negb bind]. unfold re_wf in Hwf. rewrite Hwf. cbn [negb].
+  destruct (mask_value (c :: s') idxs (k_groups k) (k_mode k)) as [[out|]| |]; reflexivity.
 Qed.
